@@ -32,8 +32,8 @@ package project
 //@   ensures ignore-once: result == nil ==> n_emit["ignore = %v\n"] == old(n_emit)["ignore = %v\n"] + ite(len(c.Ignore) != 0, 1, 0)
 //@   callsite WriteConfigFile$1@2: assert bare-key-is-valid: mustQuote || len(name) > 0
 //@   modifies heap, n_emit
-//@   loop 0: invariant n_emit["name = %v\n"] == old(n_emit)["name = %v\n"] + ite(c.Name != "", 1, 0) && n_emit["version = %v\n"] == old(n_emit)["version = %v\n"] + ite(c.Version != "", 1, 0) && n_emit["ignore = %v\n"] == old(n_emit)["ignore = %v\n"] + ite(len(c.Ignore) != 0, 1, 0)
-//@   loop 0: step one-line-per-requirement: when true ensures n_emit["%v = {path = %v, version = %v}\n"] == old(n_emit["%v = {path = %v, version = %v}\n"]) + 1
+//@   loop over slices.Sorted(): invariant n_emit["name = %v\n"] == old(n_emit)["name = %v\n"] + ite(c.Name != "", 1, 0) && n_emit["version = %v\n"] == old(n_emit)["version = %v\n"] + ite(c.Version != "", 1, 0) && n_emit["ignore = %v\n"] == old(n_emit)["ignore = %v\n"] + ite(len(c.Ignore) != 0, 1, 0)
+//@   loop over slices.Sorted(): step one-line-per-requirement: when true ensures n_emit["%v = {path = %v, version = %v}\n"] == old(n_emit["%v = {path = %v, version = %v}\n"]) + 1
 
 // Versioned paths: the suffix after the last '@' of the final path element.
 //@ func project.SplitPathVersion
@@ -57,7 +57,7 @@ package project
 //@ func project.LoadConfigBytes
 //@   ensures config-or-error: result.1 == nil ==> result.0 != nil
 //@   modifies heap
-//@   loop 0: invariant errors-are-errors: forall j: int :: 0 <= j && j < len(errs) ==> errs[j] != nil
+//@   loop over slices.Sorted(): invariant errors-are-errors: forall j: int :: 0 <= j && j < len(errs) ==> errs[j] != nil
 //@ func project.LoadConfigFile
 //@   ensures config-or-error: result.1 == nil ==> result.0 != nil
 //@   modifies heap
